@@ -305,7 +305,7 @@ def r5(repo, run):
         cb = e.args[0] if e.args else e.kw.get('map_fn')
         if cb is None or cb.closure is None:
             raise AnalysisError('on_premerge_impl: map callback not recognised')
-        t, cps = Tracer(repo, no_inline=PNI, follow_exceptions=False).trace_closure(cb)
+        t, cps = Tracer(repo, no_inline=PNI, follow_exceptions=False).trace_closure(cb, heap=e.heap)
         cps_ = callback_params(t)
         for q in cps:
             want = '%s.ayns.on_premerge(%s, %s)' % (cps_[1], cps_[0], into)
